@@ -3,11 +3,13 @@
 
 mod agentdef;
 mod cmdfault;
+mod effect;
 mod oracle;
 mod persist;
 mod remote;
 mod run;
 mod script;
+mod selectdef;
 mod store;
 
 use common::{json, CaseOut, Json, Rng, Session};
@@ -31,6 +33,17 @@ fn focus_for(prop: &str) -> Vec<(Focus, &'static str, u64)> {
     }
 }
 
+/// Parts hosted on the hand-written `SelectAgent` (handlers of the `*Select*` family, see `selectdef`):
+/// the same generators and oracles as the parts of `focus_for`, 9-10 % of the budget on top of it.
+fn select_focus_for(prop: &str) -> Vec<(Focus, &'static str, u64)> {
+    match prop {
+        "C01" => vec![(Focus::Value, "select-value-conversations", 7), (Focus::Sync, "select-sync-conversations", 2)],
+        "C02" => vec![(Focus::Map, "select-map-conversations", 8), (Focus::Sync, "select-sync-conversations", 2)],
+        "C03" => vec![(Focus::Sync, "select-sync-conversations", 7), (Focus::Map, "select-map-conversations", 3)],
+        _ => vec![],
+    }
+}
+
 fn describe(script: &[Step]) -> Vec<String> {
     script.iter().map(|s| format!("{s:?}").chars().take(100).collect()).collect()
 }
@@ -43,6 +56,15 @@ fn run_one(focus: Focus, len: usize, rng: &mut Rng, out: &mut CaseOut, reporting
     run_script(&cfg, &script, rng, out, reporting);
 }
 
+/// The same conversation generator, hosted on the hand-written `SelectAgent`.
+fn run_one_select(focus: Focus, len: usize, rng: &mut Rng, out: &mut CaseOut) {
+    let mut g = Gen::new(rng);
+    let cfg = g.config(focus);
+    let script = g.script_with_effects(focus, &cfg, len);
+    drop(g);
+    run_script_with(&cfg, &script, rng, out, false, None, true);
+}
+
 /// C14, fault part: the command channels the agent's commands travel on fail to open, fail while
 /// open, or are closed by the idle time-out (see `cmdfault`).
 fn run_fault_case(len: usize, rng: &mut Rng, out: &mut CaseOut) {
@@ -51,14 +73,14 @@ fn run_fault_case(len: usize, rng: &mut Rng, out: &mut CaseOut) {
     let plan = g.fault_plan();
     let script = g.fault_script(&cfg, len, &plan);
     drop(g);
-    run_script_with(&cfg, &script, rng, out, false, Some(plan));
+    run_script_with(&cfg, &script, rng, out, false, Some(plan), false);
 }
 
 fn run_script(cfg: &script::Config, script: &[Step], rng: &mut Rng, out: &mut CaseOut, reporting: bool) {
-    run_script_with(cfg, script, rng, out, reporting, None)
+    run_script_with(cfg, script, rng, out, reporting, None, false)
 }
 
-fn run_script_with(cfg: &script::Config, script: &[Step], rng: &mut Rng, out: &mut CaseOut, reporting: bool, faults: Option<script::FaultPlan>) {
+fn run_script_with(cfg: &script::Config, script: &[Step], rng: &mut Rng, out: &mut CaseOut, reporting: bool, faults: Option<script::FaultPlan>, select_agent: bool) {
     // command targets: two lanes behind one remote host (they share a channel) and one local lane
     let targets: Vec<(Option<String>, String, String)> = if faults.is_some() {
         script::fault_targets()
@@ -74,6 +96,7 @@ fn run_script_with(cfg: &script::Config, script: &[Step], rng: &mut Rng, out: &m
         target_caps: vec![*rng.pick(&[4usize, 16, 64, 4096]), *rng.pick(&[8usize, 64, 4096])],
         target_pace: vec![remote::Pace { chunk: *rng.pick(&[1usize, 3, 64, 4096]), yields: *rng.pick(&[0u32, 2, 20]) }],
         faults: faults.clone(),
+        select_agent,
         ..Default::default()
     };
     let obs = run::run_case::<StoreDisabled>(cfg, script, &opts, rng, None, targets.clone());
@@ -119,6 +142,15 @@ fn run_script_with(cfg: &script::Config, script: &[Step], rng: &mut Rng, out: &m
     out.add("supply-items-certain", sum.supply_certain);
     out.add("commands-handled", sum.commands_traced);
     out.add("take-drop-checked", sum.take_drops);
+    if let Some(counts) = obs.select_counts.as_ref() {
+        // which handlers of the select family the agent model was handed in this case
+        out.count("agent-type/select");
+        for (name, n) in counts {
+            out.add(name, *n);
+        }
+        let judged = effect::check_effects(&obs, out);
+        out.add("command-effect-checked", judged);
+    }
     if out.verbose {
         eprintln!("config: {cfg:?}");
         for st in script {
@@ -165,6 +197,7 @@ fn run_script_with(cfg: &script::Config, script: &[Step], rng: &mut Rng, out: &m
 fn main() {
     let mut s = Session::new("agent");
     let prop = s.prop().to_string();
+    let select_debug = s.args.extra_u64("select").map_or(false, |v| v != 0);
     if let Some(which) = s.args.extra_u64("debug") {
         // hand-written scripts for investigating a finding (never part of a check)
         s.part("debug", "hand-written script", false, 1, |_i, rng, out| {
@@ -203,7 +236,7 @@ fn main() {
                     send(6, 0, 6),
                     Step::Settle,
                 ];
-                run_script_with(&cfg, &script, rng, out, false, Some(plan));
+                run_script_with(&cfg, &script, rng, out, false, Some(plan), false);
                 return;
             }
             let script = match which {
@@ -215,7 +248,7 @@ fn main() {
                 7 => vec![Step::Attach(0), c(0, "cmd", "@cmd{id:1,acts:{@send{target:0,v:4294967297,mode:0},@send{target:1,v:4294967298,mode:0}}}"), Step::Settle, c(0, "cmd", "@cmd{id:2,acts:{@send{target:0,v:4294967299,mode:0},@send{target:1,v:4294967300,mode:0}}}"), Step::Settle],
                 _ => vec![Step::Attach(0), Step::Sync(0, "m1".into()), Step::Settle, c(0, "cmd", "@cmd{id:1,acts:{@upd{lane:0,k:0,v:4294967297}}}"), Step::Settle, Step::Sync(0, "m1".into()), Step::Settle],
             };
-            run_script(&cfg, &script, rng, out, false);
+            run_script_with(&cfg, &script, rng, out, false, None, select_debug);
         });
         s.finish();
     }
@@ -257,6 +290,22 @@ fn main() {
             |_i, rng, out| {
                 let len = rng.range(8, len_max) as usize;
                 run_one(focus, len, rng, out, prop == "C20");
+            },
+        );
+    }
+    for (focus, name, share) in select_focus_for(&prop) {
+        if only.as_ref().map_or(false, |o| !name.starts_with(o.as_str())) {
+            continue;
+        }
+        let n = (total * share / 100).max(1);
+        s.part(
+            name,
+            "the same seeded conversations as the part of the same name without `select-`, hosted on a hand-written AgentSpec whose value and map lanes are served by the select handler family (decode_and_select_set, decode_and_select_apply, decode_shared_and_select_apply, ValueLaneSelectSync, MapLaneSelectSync, MapLaneSelectDropOrTake); judged by the same oracles; about one step in fourteen is followed by a command-effect probe (settle, one command to a value or map lane, settle: the lane must have changed by exactly that operation); non-trivial when >= 4 frames were received; distinct by the schedule signature",
+            false,
+            n,
+            |_i, rng, out| {
+                let len = rng.range(8, len_max) as usize;
+                run_one_select(focus, len, rng, out);
             },
         );
     }
